@@ -325,6 +325,9 @@ func (sfr *SegmentFileReader) ReturnBuffers() error {
 
 // returns a bool indicating if blockNum is valid, and any error encountered
 func (sfr *SegmentFileReader) readBlock(blockNum uint16) (bool, error) {
+	// The buffers are about to be overwritten, so the previously loaded block
+	// is no longer valid; if this load fails, no block is loaded.
+	sfr.isBlockLoaded = false
 	validBlock, err := sfr.loadBlockUsingBuffer(blockNum)
 	if !validBlock {
 		return false, ErrColumnNotInBlock
